@@ -472,7 +472,7 @@ class Observer:
                 ti = int(a.split(',')[0])
                 name = int(tlist[ti].split(',')[0])
                 jk = self.prog.tasks[name].get('join')
-                if jk is None or label.startswith('rerun') or (label.startswith('ST(') and label.split(',')[2] == '1'):
+                if jk is None or label.startswith('rerun') or ('ST(' in label and label.split(',')[2] == '1'):
                     continue   # an explicit rerun of the join task itself re-executes it (C12), prerequisites are not re-checked
                 inb = self.prog.inbound(name)
                 routed = set()
